@@ -23,11 +23,15 @@ BOUNDS = {
     "quick": {"chunk_size": "1..3", "keep_chunks": "1..3", "length": "0..8",
               "ops": "1 op from an arbitrary valid cache pre-state "
                      "(inductive step) + sequences of <= 2 ops from an empty "
-                     "cache", "read size": "-1..length+2"},
+                     "cache", "read size": "-1..length+2",
+              "two file objects of one url": "real __init__, chunk sizes "
+              "(2,3) and (3,2), length 0..5, seek + read on each"},
     "thorough": {"chunk_size": "1..4", "keep_chunks": "1..4",
                  "length": "0..12",
                  "ops": "inductive step + sequences of <= 3 ops",
-                 "read size": "-1..length+3"},
+                 "read size": "-1..length+3",
+                 "two file objects of one url": "chunk sizes (2,3) (3,2) "
+                 "(1,3) (2,2), length 0..7"},
 }
 OUTSIDE = ["HTTP transport, retries, ETag", "h5py on top of the file object "
            "(dataset-level equality follows from byte equality + h5py)",
@@ -305,9 +309,11 @@ def cases(tier, seed):
                                 dict(cs=cs, keep=keep,
                                      Lmax=min(Lmax, 3 * cs + 1), over=over,
                                      ops=list(seq), pre=None)))
-    for cs, cs2 in ((2, 3), (3, 2), (1, 3), (2, 2)):
+    for cs, cs2 in ((2, 3), (3, 2)) if tier == "quick" else (
+            (2, 3), (3, 2), (1, 3), (2, 2)):
         out.append(("two file objects of one url cs=%d,%d" % (cs, cs2),
-                    dict(two=True, cs=cs, cs2=cs2, keep=2, Lmax=7, over=2,
+                    dict(two=True, cs=cs, cs2=cs2, keep=2,
+                         Lmax=5 if tier == "quick" else 7, over=2,
                          ops=["seek_set", "read", "seek_set", "read"],
                          pre=None)))
     random.Random(seed).shuffle(out)
